@@ -322,7 +322,124 @@ func oracleLogfmt(rec EncRec, payloads [][]byte) string {
 	return ""
 }
 
+// ---- the domain predicate of the C05 theorems (coq/Model/Logfmt.v lf_domain), evaluated in Go on
+// every record the harness feeds; Corr/C05.v requires the same of the Gallina form of the record ----
+func lfLegalKey(k string) bool {
+	if k == "" || reservedKeys[k] {
+		return false
+	}
+	for i := 0; i < len(k); i++ {
+		if c := k[i]; c <= ' ' || c == 0x7f || c == '=' || c == '"' {
+			return false
+		}
+	}
+	return true
+}
+func lfQTextOK(t string) bool { // Time.AppendFormat output, printed between raw quotes
+	for i := 0; i < len(t); i++ {
+		if c := t[i]; c < 0x20 || c >= 0x7f || c == '"' || c == '\\' {
+			return false
+		}
+	}
+	return true
+}
+func lfBareOK(t string) bool { // strconv float/complex text, printed bare
+	for i := 0; i < len(t); i++ {
+		if c := t[i]; c <= 0x20 || c >= 0x7f {
+			return false
+		}
+	}
+	return t == "" || (t[0] != '"' && t[0] != '[')
+}
+func lfElemOK(t string) bool { // bare list element
+	for i := 0; i < len(t); i++ {
+		if c := t[i]; c <= 0x20 || c >= 0x7f || c == '"' || c == ',' || c == ']' {
+			return false
+		}
+	}
+	return t != ""
+}
+func lfDomAttrs(as []GAttr) bool {
+	for _, a := range as {
+		if a.Nil {
+			continue
+		}
+		if !lfLegalKey(a.Key) {
+			return false
+		}
+		v := a.Val
+		switch v.Kind {
+		case "group":
+			if !lfDomAttrs(v.Items) {
+				return false
+			}
+		case "float32":
+			if !lfBareOK(ftxt(float64(float32(v.F)))) {
+				return false
+			}
+		case "float64":
+			if !lfBareOK(ftxt(v.F)) {
+				return false
+			}
+		case "complex64":
+			if !lfBareOK(strconv.FormatComplex(complex128(complex64(complex(v.C[0], v.C[1]))), 'f', -1, 128)) {
+				return false
+			}
+		case "complex128":
+			if !lfBareOK(strconv.FormatComplex(complex(v.C[0], v.C[1]), 'f', -1, 128)) {
+				return false
+			}
+		case "time":
+			if !lfQTextOK(fixedTime.Add(time.Duration(v.I)).Format(time.RFC3339Nano)) {
+				return false
+			}
+		case "float64s":
+			for _, f := range v.Fs {
+				if !lfElemOK(ftxt(f)) {
+					return false
+				}
+			}
+		case "times":
+			for _, t := range v.times() {
+				if !lfQTextOK(t.Format(time.RFC3339Nano)) {
+					return false
+				}
+			}
+		}
+	}
+	return true
+}
+func lfBlankPrint(rec EncRec) bool {
+	return rec.Cfg.Level == 8 && strings.Trim(rec.Msg, "\n\r \t") == ""
+}
+func lfDomain(rec EncRec) bool {
+	return !lfBlankPrint(rec) && lfQTextOK(tsText) && lfDomAttrs(rec.Attrs)
+}
+
 func runC05(r *Run) {
-	r.Rule = "as C04 with logfmt-legal keys (non-empty, no blank/=/quote/control); groups at every position among the attributes; byte-exact comparison with the model; direct oracle = independent tokenizer + strconv.Unquote against the flattened dotted-key expectation + one-line framing; production mode (harness binary, not go test, DEBUG unset); non-trivial = a byte needing escape or a group; distinct by record"
-	runEncoder(r, "C05", "logfmt", "Verif.Corr.C05", EncProfile{KeyClass: 1, TextClass: 2, MaxDepth: 4, MaxAttrs: 8, LegalKeys: true}, oracleLogfmt, 500, 12000)
+	seen := map[string]bool{}
+	inDom, blank, outside := 0, 0, 0
+	oracle := func(rec EncRec, payloads [][]byte) string {
+		if k := fmt.Sprintf("%+v", rec); !seen[k] {
+			seen[k] = true
+			switch {
+			case lfBlankPrint(rec):
+				blank++
+			case lfDomain(rec):
+				inDom++
+			default:
+				outside++
+			}
+		}
+		return oracleLogfmt(rec, payloads)
+	}
+	r.Rule = "as C04 with logfmt-legal keys (non-empty, no blank/=/quote/control, not a reserved name); groups at every position among the attributes; " +
+		"Corr/C05.ok per record: (1) byte-exact comparison encoder model vs implementation, (2) the record satisfies lf_domain (the hypothesis of the C05 theorems) or is a blank Print, " +
+		"(3) the Coq specification tokenizer/decoder applied to the OBSERVED line returns the printed forms of fields_of and fields_of itself; " +
+		"direct oracle (Go, independent of the model) = tokenizer + strconv.Unquote against the flattened dotted-key expectation + one-line framing; " +
+		"production mode (harness binary, not go test, DEBUG unset); non-trivial = a byte needing escape or a group; distinct by record"
+	runEncoder(r, "C05", "logfmt", "Verif.Corr.C05", EncProfile{KeyClass: 1, TextClass: 2, MaxDepth: 4, MaxAttrs: 8, LegalKeys: true}, oracle, 500, 12000)
+	r.Extra["records_in_lf_domain"] = inDom
+	r.Extra["records_blank_print"] = blank
+	r.Extra["records_outside_domain"] = outside
 }
